@@ -121,6 +121,11 @@ func c01(r *core.Report) {
 	r.Rule("C01-FRAG-ID", "a fragmented message's id is read and advanced in one critical section (or by one atomic add)", 2)
 	ruleFragIDAtomic(r, "C01-FRAG-ID")
 
+	// ---- C01-ADDRESSEE (shared with C04-P2PKE): "to whom it was told": on the identity-addressed
+	// layer a Tell to X@addr goes out only on a channel whose authenticated key fingerprints to X
+	r.Rule("C01-ADDRESSEE", "p2pkeswarm sends a Tell only on a channel whose authenticated identity equals the destination's", 2)
+	ruleP2PKEAddressee(r, "C01-ADDRESSEE")
+
 	// ---- C01-ADDR-PROVENANCE
 	r.Rule("C01-ADDR-PROVENANCE", "re-wrapped messages keep source as source and destination as destination", 10)
 	nProv := 0
